@@ -118,6 +118,7 @@ def run(tier, replay=None):
     run_refusal(chk, F)
     run_refusal_atomic(chk, F)
     run_refusal_empty(chk, F)
+    run_operator_state(chk, F)
     run_inverse_product_width(chk, F)
     run_fresh_init(chk, F)
     run_isprime(chk, F, tier)
@@ -264,6 +265,41 @@ def run_refusal_empty(chk, F):
                '' if ok else 'no `if (primes.empty()) throw`: the product of no prime is 1, the field silently becomes '
                'Z/1Z (characteristic 1, multiplicative identity 0)', key='E2ref|%s::%s|empty-interval' % (cname, fname))
     chk.expect_count('E2-refusal-empty', 'multi-field setters', n, 5)
+
+
+def run_operator_state(chk, F):
+    """E1-operator-state: the operator classes carry their field in data members (characteristic, product, primes,
+    tables of inverses / partial identities). Their friend `swap` (used by the assignment of the matrices that own
+    them) exchanges every data member: for each non-static member there is an expression mentioning it on both
+    arguments. A member left out stays with the old object: the swapped operators announce one field and compute
+    inverses with the tables of the other."""
+    n = 0
+    for f in F.functions:
+        if f['name'] != 'swap' or len(f.get('params', [])) != 2 or f.get('body') is None or \
+                f.get('inst') not in (0, 2) or '/Fields/' not in f['file']:
+            continue
+        t0 = (f['params'][0].get('t') or '').replace('&', '').strip()
+        cname = t0.split('::')[-1].split('<')[0]
+        cls = [c for c in F.classes if c['name'] == cname and c.get('fields')]
+        if not cls:
+            continue
+        a, b = f['params'][0]['n'], f['params'][1]['n']
+        fields = [fl['n'] for fl in cls[0]['fields'] if not fl.get('static')]
+        if not fields:
+            continue
+        n += 1
+        seen = {a: set(), b: set()}
+        for x in ir.walk(f['body']):
+            if x.get('k') in ir.MEMBER_KINDS and x.get('n') in fields and x.get('c'):
+                base = ir.skipcasts(x['c'][0])
+                if base is not None and base.get('n') in seen:
+                    seen[base['n']].add(x['n'])
+        missing = [m for m in fields if m not in seen[a] or m not in seen[b]]
+        chk.ob('E1-operator-state', 'swap(%s&, %s&) exchanges every data member (%s)' % (cname, cname, ', '.join(fields)),
+               '%s:%d' % (rel(f['file']), f['line']), not missing,
+               '' if not missing else '`%s` is not exchanged: each object keeps its own table while announcing the '
+               'field of the other' % '`, `'.join(missing), key='E1|%s|swap-state' % cname)
+    chk.expect_count('E1-operator-state', 'friend swaps of stateful field classes', n, 3)
 
 
 # ------------------------------------------------------------------ refusal of non-primes (structural)
